@@ -182,14 +182,21 @@ class C09Episode(Episode):
                           '%s reports active, no start event published'
                           % wt.name)
 
+    def started(self):
+        self.calls_before_ops = self.world.sim.ncalls
+
     def final(self):
         pass
 
 
 class C09(Prop):
     id = 'C09'
-    level = 'exploration'
-    rule = ('one case = one seeded daemon life: swarm configuration (1-3 '
+    level = 'fault_enumeration'
+    rule = ('systematic part: a worker death (every exit status 0..255 and '
+            'every terminating signal in turn) injected before every kernel '
+            'call of a periodic check and of incr / decr / set / reload '
+            '(graceful and sequential) base scenarios. random part: '
+            'one case = one seeded daemon life: swarm configuration (1-3 '
             'watchers, numprocesses 0-4, warmup/graceful/check delays, worker '
             'behaviour mix, kernel latencies, step cost) + operation list '
             '(worker exits with any status 0..255 / any terminating signal, '
@@ -213,10 +220,77 @@ class C09(Prop):
         ops = gen.gen_history(rng, cfg, n, self.REQS, self.WEIGHTS)
         return {'cfg': cfg, 'ops': ops}
 
+    # --------------------------------------------- boundary enumeration
+    enum_hard_budget = {'quick': 60, 'thorough': 3000}
+
+    def enum_cases(self, tier, master):
+        nb = 5 if tier == 'quick' else 160
+        return [{'sweep_base': i, 'master': master} for i in range(nb)]
+
+    def base_case(self, i, master):
+        import random
+        seed = (master * 1000003 + i) & 0xffffffffffff
+        rng = random.Random('c09-sweep/%d/%d' % (master, i))
+        cfg = gen.gen_base_cfg(rng, seed, nwatch=(1, 2), numproc=(1, 2, 3),
+                               kinds=('obedient', 'slow'), singleton_p=0.0,
+                               grace=[0, 0.05, 0.25], warmup=[0, 0.05])
+        kind = rng.choice(['check', 'incr', 'decr', 'set', 'reload',
+                           'reload_seq'])
+        if kind == 'check':
+            ops = [{'op': 'wait', 'kind': 'checks', 'n': 1}]
+        else:
+            props = {'incr': {'nb': 1}, 'decr': {'nb': 1},
+                     'set': {'options': {'numprocesses': rng.choice(
+                         [1, 2, 4])}}, 'reload': {},
+                     'reload_seq': {'sequential': True}}[kind]
+            ops = [{'op': 'req', 'cmd': kind.split('_')[0], 'w': 0,
+                    'props': props, 'waiting': True, 'place': 'now',
+                    'sync': True}]
+        return {'cfg': cfg, 'ops': ops + [{'op': 'quiet', 'checks': 2}]}, \
+            kind
+
     def run(self, case):
+        if 'sweep_base' in case:
+            return self.run_sweep(case)
         ep = C09Episode(case)
         ep.run()
         return self.result(ep)
+
+    def run_sweep(self, case):
+        """a worker death (every exit status / terminating signal in turn)
+        before every kernel call of a periodic check / incr / decr / set /
+        reload"""
+        import copy
+        base, kind = self.base_case(case['sweep_base'], case['master'])
+        ep = C09Episode(base)
+        ep.run()
+        res = self.result(ep, nontrivial=False)
+        res['multi'] = multi = []
+        w = ep
+        c0 = getattr(ep, 'calls_before_ops', None)
+        K = max(4, min(80, (ep.stats.get('calls', 0) -
+                            (c0 if c0 is not None else 0))))
+        n = 0
+        for k in range(1, K + 1):
+            for wj in range(2):
+                n += 1
+                c = copy.deepcopy(base)
+                if n % 3:
+                    d = {'op': 'die', 'w': 0, 'j': wj, 'how': 'exit',
+                         'arg': (n * 7 + case['sweep_base']) % 256,
+                         'place': {'calls': k}}
+                else:
+                    d = {'op': 'die', 'w': 0, 'j': wj, 'how': 'sig',
+                         'arg': gen.TERM_SIGNALS[n % len(gen.TERM_SIGNALS)],
+                         'place': {'calls': k}}
+                c['ops'].insert(0, d)
+                e2 = C09Episode(c)
+                e2.run()
+                rr = self.result(e2, nontrivial=True)
+                for v in rr['violations']:
+                    v['case'] = c
+                multi.append(rr)
+        return res
 
 
 PROP = C09()
